@@ -616,7 +616,7 @@ pub const DEF: PropertyDef = PropertyDef {
            queries = every token position, +-1 column, next line x candidates = every identifier of the program, its extension and its \
            truncation, 'function', non-identifiers. window_boundary: a declaration followed by 118..139 filler tokens. Oracle: independent \
            walk (<= 128 tokens incl. the looked-up one, text read at UTF-16 columns from the line start). Index maps: one section at the \
-           origin must agree; a section at a non-zero offset is the K2 class. Non-trivial = >= 2 functions, non-ASCII text before a \
+           origin must agree; a section at a non-zero offset is the K2 class. duplicate_positions: several mappings at one generated position with names of their own (the walk follows the token order of the map itself; inexact lookups accept any token of the group). Non-trivial = >= 2 functions, non-ASCII text before a \
            declaration, a positive answer after an inexact lookup and a candidate seen as a non-declaration token before its declaration",
     assumptions: &[
         "identifier classification is restricted to a pool whose Unicode status is unambiguous (ASCII, é, λ, 变, 𝒳, Ω, ZWNJ/ZWJ)",
